@@ -76,6 +76,20 @@ Theorem C09_part_count :
 Proof. exact part_count. Qed.
 Print Assumptions C09_part_count.
 
+(* how a picture goes out is decided frame by frame: as jpg iff outputs_jpg says so or - with outputs_jpg unset, "as is" - iff THAT
+   frame holds a jpg; nothing carries over from the other topics of the set (no premises; the envelope's tag is what the
+   decoder goes by) *)
+From OF Require Import Frame.Codec_AsIs.
+Theorem C09_encoding_decided_per_frame :
+  forall (enc : encoder) (dec : decoder) (jtext : Type) (dumps : json -> jtext) oj h f fr hh ww fm h1 m,
+    getF h f = Some fr -> has_image fr = true -> fshape fr = Some (hh, ww, fm) ->
+    encode_one enc dec jtext dumps oj h f = (h1, Some m) ->
+    exists rest, m = PEnv hh ww fm (match oj with
+                                    | None => match has_jpg fr with Some b => b | None => false end
+                                    | Some b => b end) :: rest.
+Proof. exact encode_one_tag. Qed.
+Print Assumptions C09_encoding_decided_per_frame.
+
 (* the premises are satisfiable: a codec meeting the three hypotheses, a reachable heap with
    a writable BGR array frame carrying data and a jpg-only RGB frame, both well-formed; sent
    raw they come back with the same six pixel bytes, in messages of 3 and 2 parts *)
